@@ -14,6 +14,7 @@ pub fn run_check(prop: &str, _args: &[String]) -> i32 {
         "C17" => fault_check(),
         "C10" => cow_check(),
         "C08" => alloc_check(),
+        "C11" => discard_check(),
         _ => {
             eprintln!("unknown property {}", prop);
             2
@@ -23,7 +24,7 @@ pub fn run_check(prop: &str, _args: &[String]) -> i32 {
 
 pub fn find_image(name: &str) -> Option<ImageSet> {
     for g in [images::G9, images::G10, images::G12, images::G12B, images::G16] {
-        for k in ["libfmt", "empty", "data", "zero", "compressed", "compressed-boundary", "backing", "backing-short", "backing-long", "chain2", "shortl1"] {
+        for k in ["libfmt", "empty", "data", "data-last-table", "zero", "compressed", "compressed-boundary", "compressed-straddle", "backing", "backing-short", "backing-long", "chain2", "shortl1"] {
             if !(name.starts_with(g.name) || name.starts_with("libfmt")) {
                 continue;
             }
@@ -777,14 +778,14 @@ pub fn fault_check() -> i32 {
 pub fn cow_check() -> i32 {
     let run = Run::new("C10", "model_checking");
     let thorough = run.thorough();
-    let kinds_all = vec!["backing", "backing-short", "backing-long", "chain2", "compressed", "compressed-boundary"];
+    let kinds_all = vec!["backing", "backing-short", "backing-long", "chain2", "compressed", "compressed-boundary", "compressed-straddle"];
     let plans: Vec<(Geo, Vec<&str>, Vec<&str>, usize, u64)> = if !thorough {
-        vec![(images::G10, kinds_all.clone(), vec!["small"], 3, 30), (images::G9, vec!["backing", "compressed"], vec!["small"], 3, 10)]
+        vec![(images::G10, kinds_all.clone(), vec!["small"], 3, 30), (images::G9, vec!["backing", "compressed", "compressed-straddle"], vec!["small"], 3, 10)]
     } else {
         vec![
             (images::G10, kinds_all.clone(), vec!["small", "ample"], 5, 600),
             (images::G9, kinds_all.clone(), vec!["small"], 5, 300),
-            (images::G12, vec!["backing", "backing-short", "compressed", "compressed-boundary"], vec!["small", "default"], 3, 200),
+            (images::G12, vec!["backing", "backing-short", "compressed", "compressed-boundary", "compressed-straddle"], vec!["small", "default"], 3, 200),
         ]
     };
     let oracles = Oracles { c01: true, c02: true, c03: true, c10: true, c16: false, c18: false, ..Default::default() };
@@ -971,4 +972,68 @@ pub fn alloc_check() -> i32 {
         "reuse_cycles": reuse,
     });
     run.finish(cov, vec!["hook H3 forwards allocate_clusters/free_clusters unchanged".into(), "ownership is derived by the SpecKit checker from the flushed file".into()])
+}
+
+
+// =====================================================================
+// C11: discard contract
+// =====================================================================
+pub fn discard_check() -> i32 {
+    let run = Run::new("C11", "model_checking");
+    let thorough = run.thorough();
+    let kinds = vec!["data", "data-last-table", "zero", "compressed", "backing", "libfmt"];
+    // (geometry, kinds, cfg, depth, secs, punch unsupported)
+    let mut plans: Vec<(Geo, Vec<&str>, &str, usize, u64, bool)> = vec![
+        (images::G10, kinds.clone(), "small", 2, 20, false),
+        (images::G10, vec!["data", "backing"], "small", 2, 8, true),
+        (images::G9, vec!["data", "data-last-table", "backing"], "small", 2, 8, false),
+    ];
+    if thorough {
+        plans = vec![
+            (images::G10, kinds.clone(), "small", 3, 900, false),
+            (images::G10, kinds.clone(), "ample", 2, 60, false),
+            (images::G10, vec!["data", "backing", "zero"], "small", 3, 300, true),
+            (images::G9, kinds.clone(), "small", 3, 600, false),
+            (images::G12, vec!["data", "data-last-table", "zero", "compressed", "backing"], "small", 2, 200, false),
+        ];
+    }
+    let oracles = Oracles { c01: true, c02: true, c03: true, ..Default::default() };
+    let mut viol: Vec<Violation> = vec![];
+    let mut scen = vec![];
+    let (mut states, mut trans, mut outcomes) = (0u64, 0u64, 0u64);
+    let mut samples: Vec<String> = vec![];
+    let mut all_complete = true;
+    for (g, kinds, cfgn, depth, secs, nopunch) in plans.iter() {
+        let imgs = images::initial_images(g, kinds);
+        let n = imgs.len() as u64;
+        for img in imgs {
+            qcow2_rs::verif::set_order_salt(0);
+            let mut sc = SeqScenario::new(img.clone(), cfg_of(g, cfgn), g.cfg_alt(), cfgn, images::discard_alphabet(g), oracles.clone());
+            sc.relabel = Some("C11".into());
+            sc.punch_unsupported = *nopunch;
+            let lim = BfsLimits { depth: *depth, max_states: 3_000_000, deadline: deadline_in((secs / n).max(2)) };
+            let st = bfs(&sc, &lim, &mut viol);
+            states += st.states;
+            trans += st.transitions;
+            outcomes += st.distinct_outcomes;
+            if st.capped || st.depth_completed < st.depth_target {
+                all_complete = false;
+            }
+            if let Some(s) = st.samples.get(3).or(st.samples.first()) {
+                if samples.len() < 12 {
+                    samples.push(format!("{}{}: {}", crate::hist::Scenario::name(&sc), if *nopunch { " (hole punch unsupported)" } else { "" }, s));
+                }
+            }
+            scen.push(stats_json(&format!("{}{}", crate::hist::Scenario::name(&sc), if *nopunch { " nopunch" } else { "" }), &st));
+        }
+    }
+    run.add_all(viol);
+    let cov = json!({
+        "states": states, "transitions": trans, "traces_validated_against_impl": trans, "samples": samples,
+        "evaluations": trans, "distinct_nontrivial": outcomes,
+        "rule": "explicit-state BFS over histories whose alphabet is ~95 discard(offset,len) pairs from the boundary sets {0,BS,CS-BS,CS,CS+BS,V-CS,V-BS,V,V+CS,2^64-CS} x {0,BS,CS-BS,CS,CS+BS,2CS,3CS+BS,V,2^64-1} (+ table-crossing unaligned ranges) plus writes, flush, reopen, over images whose clusters are data / zero-flagged (with and without preallocation) / compressed / backing-provided / unallocated, with hole punching supported and unsupported; oracles: every discard Ok, RefDisk discard semantics on the full sweep, reopen, strict checker (released clusters free, nothing leaked)",
+        "exhaustive": all_complete,
+        "scenarios": scen,
+    });
+    run.finish(cov, vec!["as C01".into()])
 }
